@@ -130,16 +130,21 @@ def _c38(ctx):
 def _c29(ctx):
     r = _table(ctx, "C29", "MC_Fallback.tla", "MC_Fallback.cfg", "Gen_Fallback.cfg", "c29",
                bad_cfg="MC_Fallback_mutant.cfg", bad_inv="C29_FollowsTable")
+    _rejected(ctx, "mc_c29_bad_snapshot_first", "MC_Fallback.tla", "MC_Fallback_snapshot_first_removes.cfg", "C29_FollowsTable", timeout=600)
     ctx.assumptions += [
         "the decision is observed at collector::Run::repository (the call the validation makes per CA): RRDP repository / rsync "
         "repository / none, cross-checked with the fake rsync's log and the double's request log",
-        "RRDP outcomes are produced, not injected: updated = healthy server, no copy; current = successful update, then HTTP 500; "
-        "stale = successful update with refresh 1 s and fallback time 0 (best-before 1-2 s later), 3.3 s wait, then HTTP 500; "
-        "unavailable = no copy and HTTP 500; the stored best-before is read back to confirm the state before the run",
+        "RRDP outcomes are produced, not injected. The copy: none / current (successful update) / expired (successful update with "
+        "refresh 1 s and fallback time 0: best-before 1-2 s later, then a 3.3 s wait); the stored best-before is read back to "
+        "confirm the state before the run. This run's update: ok (with a copy: one delta to apply) / the delta answers 404 (the "
+        "snapshot is taken instead) / the notification answers 500 / a good notification whose snapshot answers 404 (with a copy: "
+        "after a new session, so that no delta can be tried)",
         "for rows with RRDP disabled or a CA without rpkiNotify the local copy is prepared all the same and must not matter",
     ]
-    rule = ("all 96 rows of policy {never, stale, new} x outcome {updated, current, stale, unavailable} x RRDP on/off x rsync on/off x "
-            "rpkiNotify present/absent; oracle = the documented table (man page, --rrdp-fallback); every row is non-trivial")
+    rule = ("all 264 rows of policy {never, stale, new} x (copy {none, current, expired} x this run's update {ok, delta fails, "
+            "notification fails, snapshot fails}: 11 pairs giving the outcomes updated / current / stale / unavailable) x RRDP on/off "
+            "x rsync on/off x rpkiNotify present/absent; oracle = the documented table (man page, --rrdp-fallback) on the outcome "
+            "the copy and the update define; every row is non-trivial")
     return lib.finish(ctx, r, rule, exhaustive=True)
 
 
@@ -165,10 +170,10 @@ CHECKS = {
             "level_text": "Limit disabled / 3000 / default x sizes just below, at, above each limit and huge x https trust anchor, "
                           "snapshot object, delta object; plus whole validation runs over an https TAL."},
     "C29": {"run": _c29, "engine": "Fallback",
-            "technique": "TLA+ transcription of Run::repository against the documented table (Fallback.tla) checked by TLC; all 96 rows "
+            "technique": "TLA+ transcription of Run::repository against the documented table (Fallback.tla) checked by TLC; all 264 rows "
                          "replayed with really produced RRDP outcomes",
             "design_ref": "4/C29",
             "level_note": "Outcomes are produced through the server double and real waiting (3.3 s once); one CA per row, one "
                           "thread; the thorough tier repeats every row with two CAs of the same repository looked up by two threads.",
-            "level_text": "The full product policy x outcome x RRDP on/off x rsync on/off x rpkiNotify yes/no (96 rows)."},
+            "level_text": "The full product policy x (copy x update result: 11 pairs covering the four outcomes) x RRDP on/off x rsync on/off x rpkiNotify yes/no (264 rows)."},
 }
